@@ -22,6 +22,7 @@ import (
 	"sort"
 	"strconv"
 	"strings"
+	"sync"
 	"testing"
 	"time"
 	"unsafe"
@@ -93,6 +94,7 @@ func pcanon(v *vaa.VAA) string {
 }
 
 type pworld struct {
+	fwdMu    *sync.Mutex // set while the processor's broadcast queue is the unbuffered one of production (see fullQueueFamily)
 	dbdir    string
 	downTick int // soak: the tick (index) during which the local store is unavailable; -1 = never
 	t      *testing.T
@@ -228,6 +230,12 @@ func (w *pworld) startLive(signer *ecdsasigner.ECDSAPrivateKey) {
 	w.p = NewProcessor(w.ctx, w.db, w.lockC, w.setC, w.sendC, w.obsvC, w.reqC, w.injectC, w.inC, signer,
 		common.NewGuardianSetState(nil), reporter.EventListener(zap.NewNop()), notifier, pgovChain, pgovEmitter)
 	w.p.logger = zap.NewNop()
+	w.runLoop()
+}
+
+// runLoop starts Run on the CURRENT Processor value (first start, or a re-entry after Run returned - what the supervisor does with
+// a runnable that ended) and takes over its cleanup ticker.
+func (w *pworld) runLoop() {
 	ctx, cancel := context.WithCancel(w.ctx)
 	done := make(chan struct{})
 	p := w.p
@@ -253,6 +261,20 @@ func (w *pworld) startLive(signer *ecdsasigner.ECDSAPrivateKey) {
 		old.Stop()
 	}
 	w.barrier()
+}
+
+// rerun: Run returns (its context is cancelled) and is entered again on the same Processor, as the supervisor re-runs a runnable
+// that ended. Nothing the node has observed, collected or stored may be affected: the model takes no step.
+func (w *pworld) rerun() bool {
+	if !w.live || w.deadMsg != "" || w.liveBroken {
+		return true
+	}
+	w.stopRun()
+	w.stopRun = nil
+	w.runLoop()
+	w.dist["rerun"]++
+	fmt.Fprintf(w.w, "rerun %s\n", w.caseID)
+	return w.deadMsg == ""
 }
 
 func (w *pworld) stopLive() {
@@ -517,6 +539,10 @@ func (w *pworld) summary() (st string, dbs string) {
 func (w *pworld) drain(expectLoop bool) string {
 	var outs []string
 	nobs := 0
+	if w.fwdMu != nil { // unbuffered broadcast queue with a polling consumer: take and hand-over happen under this lock
+		w.fwdMu.Lock()
+		defer w.fwdMu.Unlock()
+	}
 	for {
 		select {
 		case b := <-w.sendC:
@@ -922,8 +948,30 @@ func (w *pworld) signedVAA(base *vaa.VAA, gs *common.GuardianSet, set []pkey, id
 		copy(s[:], psign(set[i], d))
 		c.Signatures = append(c.Signatures, &vaa.Signature{Index: uint8(i), Signature: s})
 	}
-	b, _ := c.Marshal()
+	b, err := c.Marshal()
+	if err != nil { // an encoder that refuses this value (e.g. an empty payload): the wire form written by hand
+		b = pencode(&c)
+	}
 	return b
+}
+
+// pencode: the wire form of a VAA, written without the encoder under test (version, set index, signature count, signatures, body).
+func pencode(v *vaa.VAA) []byte {
+	b := []byte{v.Version, byte(v.GuardianSetIndex >> 24), byte(v.GuardianSetIndex >> 16), byte(v.GuardianSetIndex >> 8), byte(v.GuardianSetIndex), byte(len(v.Signatures))}
+	for _, s := range v.Signatures {
+		b = append(b, s.Index)
+		b = append(b, s.Signature[:]...)
+	}
+	ts := uint32(v.Timestamp.Unix())
+	b = append(b, byte(ts>>24), byte(ts>>16), byte(ts>>8), byte(ts))
+	b = append(b, byte(v.Nonce>>24), byte(v.Nonce>>16), byte(v.Nonce>>8), byte(v.Nonce))
+	b = append(b, byte(v.EmitterChain>>8), byte(v.EmitterChain), byte(v.TargetChain>>8), byte(v.TargetChain))
+	b = append(b, v.EmitterAddress[:]...)
+	for i := 7; i >= 0; i-- {
+		b = append(b, byte(v.Sequence>>(8*uint(i))))
+	}
+	b = append(b, v.ConsistencyLevel)
+	return append(b, v.Payload...)
 }
 
 func (w *pworld) scenario(id string, thorough bool) {
@@ -1416,6 +1464,9 @@ func (w *pworld) rotationFamily(id string) {
 		if !b {
 			ok = false
 		}
+		if ok && w.live && r.Intn(5) == 0 {
+			ok = w.rerun()
+		}
 	}
 	obsAll := func(ks []pkey, n int) {
 		for _, i := range r.Perm(len(ks)) {
@@ -1659,6 +1710,32 @@ func (w *pworld) fullQueueFamily(id string) {
 	if !w.setUpdate(gs) {
 		return
 	}
+	// the broadcast queue as node.go wires it: UNBUFFERED, with a consumer (the p2p loop) that takes one message at a time and
+	// needs a moment for each; the consumer polls, and take + hand-over to the harness' own buffer happen under one lock
+	unbuf := make(chan []byte)
+	w.p.sendC = unbuf
+	w.fwdMu = &sync.Mutex{}
+	stopFwd := make(chan struct{})
+	fwdDone := make(chan struct{})
+	go func(mu *sync.Mutex) {
+		defer close(fwdDone)
+		for {
+			select {
+			case <-stopFwd:
+				return
+			default:
+			}
+			mu.Lock()
+			select {
+			case m := <-unbuf:
+				w.sendC <- m
+			default:
+			}
+			mu.Unlock()
+			time.Sleep(50 * time.Microsecond)
+		}
+	}(w.fwdMu)
+	defer func() { close(stopFwd); <-fwdDone; w.fwdMu = nil }()
 	var emitter vaa.Address
 	r.Read(emitter[:])
 	k := w.randMsg(emitter, 1)
@@ -2055,8 +2132,12 @@ func TestVerifProcessor(t *testing.T) {
 		nrot = 1500
 	}
 	for i := 0; i < nrot; i++ {
+		// every third rotation history goes through the real Run loop (guardian-set updates handled by Run's own select arm)
+		w.wantLive = i%3 == 2
 		w.rotationFamily(fmt.Sprintf("r%d", i))
 	}
+	w.wantLive = false
+	w.stopLive()
 	bigs := []int{20, 21, 64, 255}
 	if thorough {
 		bigs = []int{20, 21, 22, 32, 63, 64, 65, 127, 128, 129, 200, 254, 255}
